@@ -34,9 +34,9 @@ set_option maxHeartbeats 1000000 in
 /-- `loopX2` from `fillCounterX2` to the stores -/
 theorem x2A_spec (s : State) (pc : PCtx s) (rk jb src : List Nat) (hrk : rk.length = 32) (hrkb : ∀ x ∈ rk, x < 2 ^ 32)
     (hjb : jb.length = 16) (hjbb : ∀ x ∈ jb, x < 2 ^ 8) (hsb : ∀ x ∈ src, x < 2 ^ 8)
-    (Mf : List Nat → List Region) (dbase dlen sp : Nat) (bf : Buf Mf dbase dlen) (hsrc : ∀ b, b.length = dlen → DataAt (Mf b) sp src)
+    (Mf : List Nat → List Region) (dbase dlen sp : Nat) (bf : Buf Mf dbase dlen)
     (hrd : ∀ b i, b.length = dlen → i < 32 → readMem (Mf b) (73014444032 + 4 * i) 4 = .ok (lanes 8 4 (rk.getD i 0)))
-    (b0 : List Nat) (hb0 : b0.length = dlen) (hm : s.mem = Mf b0) (c : Nat)
+    (b0 : List Nat) (hb0 : b0.length = dlen) (hm : s.mem = Mf b0) (c : Nat) (hsrc : SrcFrom (Mf b0) sp src (16 * c))
     (hctr : quadAt (vreg s 14) 0 = ctrW (Wblk jb 0) c) (h15 : greg s 15 = 73014444032)
     (h10 : greg s 10 = sp + 16 * c) (h13 : greg s 13 = dbase + 16 * c) (hso : 16 * c + 32 ≤ src.length) (hdo : 16 * c + 32 ≤ dlen)
     (hsp : sp + src.length < 2 ^ 63) (hdb : dbase + dlen < 2 ^ 63) :
@@ -55,7 +55,7 @@ theorem x2A_spec (s : State) (pc : PCtx s) (rk jb src : List Nat) (hrk : rk.leng
   rw [encQ_ctr rk jb hrkb hjb hjbb] at o9 o8
   have hm2 : s2.mem = Mf b0 := by rw [k2.mem, k1.mem]; exact hm
   obtain ⟨s3, hr3, m3, r9, r8⟩ := xs2_spec s2 (k2.lenG.trans (k1.lenG.trans pc.lenG)) (k2.lenV.trans (k1.lenV.trans pc.lenV)) Mf dbase dlen bf src sp
-    hsrc hsb b0 hb0 hm2 (16 * c) (16 * c) (by rw [k2.g 10 (by decide), k1.g 10 (by decide)]; exact h10)
+    hsb b0 hb0 hm2 (16 * c) (16 * c) hsrc (by rw [k2.g 10 (by decide), k1.g 10 (by decide)]; exact h10)
     (by rw [k2.g 13 (by decide), k1.g 13 (by decide)]; exact h13) hso hdo hsp hdb _ _
     ⟨lt9, o9, encB_length _ _, encB_bytes _ _⟩ ⟨lt8, o8, encB_length _ _, encB_bytes _ _⟩
   have k3 := keepsM_of_exec _ xs2_writesM hr3
@@ -70,9 +70,9 @@ set_option maxHeartbeats 1000000 in
 /-- `loopX1` from `fillCounterX1` to the store -/
 theorem x1A_spec (s : State) (pc : PCtx s) (rk jb src : List Nat) (hrk : rk.length = 32) (hrkb : ∀ x ∈ rk, x < 2 ^ 32)
     (hjb : jb.length = 16) (hjbb : ∀ x ∈ jb, x < 2 ^ 8) (hsb : ∀ x ∈ src, x < 2 ^ 8)
-    (Mf : List Nat → List Region) (dbase dlen sp : Nat) (bf : Buf Mf dbase dlen) (hsrc : ∀ b, b.length = dlen → DataAt (Mf b) sp src)
+    (Mf : List Nat → List Region) (dbase dlen sp : Nat) (bf : Buf Mf dbase dlen)
     (hrd : ∀ b i, b.length = dlen → i < 32 → readMem (Mf b) (73014444032 + 4 * i) 4 = .ok (lanes 8 4 (rk.getD i 0)))
-    (b0 : List Nat) (hb0 : b0.length = dlen) (hm : s.mem = Mf b0) (c : Nat)
+    (b0 : List Nat) (hb0 : b0.length = dlen) (hm : s.mem = Mf b0) (c : Nat) (hsrc : SrcFrom (Mf b0) sp src (16 * c))
     (hctr : quadAt (vreg s 14) 0 = ctrW (Wblk jb 0) c) (h15 : greg s 15 = 73014444032)
     (h10 : greg s 10 = sp + 16 * c) (h13 : greg s 13 = dbase + 16 * c) (hso : 16 * c + 16 ≤ src.length) (hdo : 16 * c + 16 ≤ dlen)
     (hsp : sp + src.length < 2 ^ 63) (hdb : dbase + dlen < 2 ^ 63) :
@@ -90,7 +90,7 @@ theorem x1A_spec (s : State) (pc : PCtx s) (rk jb src : List Nat) (hrk : rk.leng
   rw [encQ_ctr rk jb hrkb hjb hjbb] at o9
   have hm2 : s2.mem = Mf b0 := by rw [k2.mem, k1.mem]; exact hm
   obtain ⟨s3, hr3, m3, r9⟩ := xs1_spec s2 (k2.lenG.trans (k1.lenG.trans pc.lenG)) (k2.lenV.trans (k1.lenV.trans pc.lenV)) Mf dbase dlen bf src sp
-    hsrc hsb b0 hb0 hm2 (16 * c) (16 * c) (by rw [k2.g 10 (by decide), k1.g 10 (by decide)]; exact h10)
+    hsb b0 hb0 hm2 (16 * c) (16 * c) hsrc (by rw [k2.g 10 (by decide), k1.g 10 (by decide)]; exact h10)
     (by rw [k2.g 13 (by decide), k1.g 13 (by decide)]; exact h13) hso hdo hsp hdb _
     ⟨lt9, o9, encB_length _ _, encB_bytes _ _⟩
   have k3 := keepsM_of_exec _ xs1_writesM hr3
